@@ -131,6 +131,8 @@ def to_int(v):
 
 
 def to_bool(v):
+    if z3.is_expr(v):
+        return v
     if isinstance(v, SBool):
         return v.z
     if isinstance(v, bool):
@@ -182,6 +184,8 @@ def subst(v, pairs):
     lambda-sequence templates at an index)."""
     if not pairs:
         return v
+    if hasattr(v, "pvc_subst"):
+        return v.pvc_subst(pairs)
     if isinstance(v, SInt):
         return wrap(z3.substitute(v.z, *pairs))
     if isinstance(v, SReal):
